@@ -160,3 +160,23 @@ Fixpoint gmismatches_from (n : nat) (cs : list gcase) : list nat :=
                     end
   end.
 Definition gmismatches := gmismatches_from 0.
+
+(* ---- mix (C13): the component sub-execution of genjax.mix is the model's switch run with the key of the second
+   site of the static function mixture.py builds (g_mix in Derived.v), on the index the first site drew ---- *)
+Record mixcase := { mx_prog : dgf; mx_seed : N; mx_args : list val; mx_sim : tobs;
+                    mx_gen : list (N * list val * list (list ckey * val) * (tobs * Z)) }.
+Definition mix_ok (c : mixcase) : bool :=
+  let g := desugar (mx_prog c) in
+  (match simulate g (fold_in (key_of_seed (mx_seed c)) 2) (mx_args c) with Ok t => tobs_ok t (mx_sim c) | Err _ => false end) &&
+  forallb (fun x : N * list val * list (list ckey * val) * (tobs * Z) =>
+             let '(sd, a, es, ow) := x in
+             match generate g (fold_in (key_of_seed sd) 2) (cbuild es) a with
+             | Ok (t, wt) => tobs_ok t (fst ow) && Z.eqb wt (snd ow)
+             | Err _ => false
+             end) (mx_gen c).
+Fixpoint mix_mismatches_from (n : nat) (cs : list mixcase) : list nat :=
+  match cs with
+  | [] => []
+  | c :: r => if mix_ok c then mix_mismatches_from (S n) r else n :: mix_mismatches_from (S n) r
+  end.
+Definition mix_mismatches := mix_mismatches_from 0.
